@@ -74,7 +74,7 @@ def impl(case) -> str:
             g = gens[0]
             d = lc.start(lc.interval, now=False)
             gens[0] += 1
-            d.addCallbacks(lambda r, g=g: toks.append(f"d{g}+"), lambda f, g=g: toks.append(f"d{g}-"))
+            d.addCallbacks(lambda r, g=g: done(g, True), lambda f, g=g: done(g, False))
         if b in ("defer", "stopdefer"):
             d = defer.Deferred()
             outstanding.append(d)
@@ -88,16 +88,31 @@ def impl(case) -> str:
     lc = task.LoopingCall.withCount(counted) if case["count"] else task.LoopingCall(body)
     lc.clock = clock
 
+    on_done = case.get("on_done") or []
+
+    def done(g, ok):
+        """callback / errback on the Deferred returned by the g-th start(); may restart the loop synchronously"""
+        toks.append(f"d{g}{'+' if ok else '-'}")
+        r = on_done[g] if g < len(on_done) else None
+        if r:
+            do_start(r[0], r[1])
+
+    def do_start(i, nowflag):
+        try:
+            if outstanding and not lc.running and i >= 0:
+                restart_pending[0] = True
+            g = gens[0]
+            d = lc.start(i / K, now=nowflag)
+            gens[0] += 1
+            # the start() Deferred may already have fired (f raised during the immediate call)
+            d.addCallbacks(lambda r, g=g: done(g, True), lambda f, g=g: done(g, False))
+        except (AssertionError, ValueError):
+            toks.append("XA")
+
     for o in case["ops"]:
         try:
             if o[0] == "start":
-                if outstanding and not lc.running and o[1] >= 0:
-                    restart_pending[0] = True
-                g = gens[0]
-                d = lc.start(o[1] / K, now=o[2])
-                gens[0] += 1
-                # the start() Deferred may already have fired (f raised during the immediate call)
-                d.addCallbacks(lambda r, g=g: toks.append(f"d{g}+"), lambda f, g=g: toks.append(f"d{g}-"))
+                do_start(o[1], o[2])
             elif o[0] == "adv":
                 clock.advance(o[1] / K)
             elif o[0] == "fire":
@@ -161,13 +176,37 @@ def oracle(case, obs):
             return t                   # interval 0: as soon as possible = the next iteration of the clock
         return start + ((t - start) // interval + 1) * interval
 
+    on_done = case.get("on_done") or []
+
     def expect_done(ok):
+        """the start() Deferred of the current run fires; its callback may restart the loop synchronously"""
         nonlocal unfired_gen
-        want = f"d{unfired_gen}{'+' if ok else '-'}"
+        g = unfired_gen
+        want = f"d{g}{'+' if ok else '-'}"
         t = take()
         if t != want:
             return fail(f"start() Deferred: got {t}, want {want}", "start-deferred")
         unfired_gen = None
+        r = on_done[g] if g is not None and g < len(on_done) else None
+        if r:
+            return do_start(r[0], r[1], "the callback of start()'s Deferred")
+        return None
+
+    def do_start(i, nowflag, who):
+        nonlocal running, start, interval, run_at_start, unfired_gen, gen, last_counted_time, count_sum, epoch_clean, nxt
+        if running or i < 0:
+            if take() != "XA":
+                return fail(f"start() by {who} on a running loop / with a negative interval must raise", "start-assert")
+            return None
+        if waiting:
+            return "restart-class"
+        running, start, interval, run_at_start = True, now, i, nowflag
+        unfired_gen = gen
+        gen += 1
+        last_counted_time, count_sum, epoch_clean = None, 0, True     # counting starts afresh
+        if nowflag:
+            return call_f()
+        nxt = boundary_after(now)
         return None
 
     def completed_ok():
@@ -237,37 +276,13 @@ def oracle(case, obs):
     restart_class = False
     inside_class = False
     for o in case["ops"]:
-        if inside_class:
-            break
+        f = None
         if o[0] == "start":
-            if running or o[1] < 0:
-                if take() != "XA":
-                    return fail("start() on a running loop / with a negative interval must raise", "start-assert")
-            else:
-                if waiting:
-                    restart_class = True
-                    break
-                running, start, interval, run_at_start = True, now, o[1], o[2]
-                unfired_gen = gen
-                gen += 1
-                last_counted_time, count_sum, epoch_clean = None, 0, True     # counting starts afresh
-                f = call_f() if o[2] else None
-                if not o[2]:
-                    nxt = boundary_after(now)
-                if f == "restart-inside":
-                    inside_class = True
-                    continue
-                if f:
-                    return f
+            f = do_start(o[1], o[2], "the test program")
         elif o[0] == "adv":
             now += o[1]
             if nxt is not None and nxt <= now:
                 f = call_f()
-                if f == "restart-inside":
-                    inside_class = True
-                    continue
-                if f:
-                    return f
         elif o[0] == "fire":
             if not waiting:
                 if take() != "NF":
@@ -275,8 +290,6 @@ def oracle(case, obs):
             else:
                 waiting -= 1
                 f = completed_ok() if o[1] else completed_err()
-                if f:
-                    return f
         elif o[0] == "stop":
             if not running:
                 if take() != "XA":
@@ -286,8 +299,6 @@ def oracle(case, obs):
                 if nxt is not None:
                     nxt = None
                     f = expect_done(True)
-                    if f:
-                        return f
         else:
             if not running:
                 if take() != "XA":
@@ -296,6 +307,14 @@ def oracle(case, obs):
                 epoch_clean = False
                 start = now
                 nxt = now + interval
+        if f == "restart-inside":
+            inside_class = True
+            break
+        if f == "restart-class":
+            restart_class = True
+            break
+        if f:
+            return f
         t = take()
         want = "[r%d;%s]" % (int(running), "" if nxt is None else str(nxt))
         if t != want:
@@ -341,6 +360,25 @@ def restart_count_case(rng):
     for _ in range(rng.randrange(1, 5)):
         ops.append(rng.choice([["adv", i], ["adv", 1], ["adv", 3 * i + 1], ["reset"], ["stop"], ["start", i, True]]))
     return {"k": k, "count": True, "beh": [], "ops": ops, "reactor": rng.random() < 0.3}
+
+
+def callback_restart_case(rng):
+    """the callback (or errback) on start()'s Deferred restarts the loop synchronously; then stop()/reset()/advance on
+    the restarted loop, in particular before its first scheduled tick"""
+    k = rng.choice([0, 1])
+    i = rng.choice([2, 3, 4, 10])
+    nb = rng.randrange(0, 6)
+    beh = [rng.choice(["ret"] * 5 + ["defer", "raise", "stopret", "stopdefer"]) for _ in range(nb)]
+    on_done = [([rng.choice([i, i, 2 * i, 1]), rng.random() < 0.5] if rng.random() < 0.7 else None) for _ in range(rng.randrange(1, 4))]
+    ops = [["start", i, rng.random() < 0.6]]
+    for _ in range(rng.randrange(0, 3)):
+        ops.append(rng.choice([["adv", i], ["adv", 1], ["adv", i - 1], ["fire", True]]))
+    for _ in range(rng.randrange(1, 4)):
+        ops.append(rng.choice([["stop"], ["stop"], ["fire", True], ["fire", False]]))      # ends the run: the callback restarts
+        for _ in range(rng.randrange(0, 3)):                                                 # before / around the first tick
+            ops.append(rng.choice([["stop"], ["reset"], ["adv", 1], ["adv", i - 1], ["adv", i], ["adv", 0], ["fire", True]]))
+    ops += [["adv", i], ["stop"], ["adv", 2 * i]]
+    return {"k": k, "count": rng.random() < 0.4, "beh": beh, "ops": ops, "on_done": on_done, "reactor": rng.random() < 0.25}
 
 
 def rand_case(rng, restart=False):
@@ -423,6 +461,8 @@ def gen(rng, tier):
         cases.append(rand_case(rng, restart=True))
     for _ in range(80 if tier == "quick" else 1500):
         cases.append(restart_count_case(rng))
+    for _ in range(250 if tier == "quick" else 5000):
+        cases.append(callback_restart_case(rng))
     return cases
 
 
@@ -448,6 +488,9 @@ def corpus():
         # immediate call must happen with count 1 (fix C10-start-resets-count)
         {"k": 0, "count": True, "beh": [], "ops": [["start", 4, True], ["adv", 4], ["adv", 4], ["stop"], ["start", 4, True],
                                                     ["adv", 4], ["stop"], ["adv", 100], ["start", 4, True], ["adv", 4]]},
+        # the callback on start()'s Deferred restarts the loop; stop() / reset() on the restarted loop before its first tick
+        {"k": 0, "count": False, "beh": [], "on_done": [[3, False], [3, True]],
+         "ops": [["start", 3, True], ["adv", 1], ["stop"], ["adv", 1], ["stop"], ["adv", 1], ["reset"], ["adv", 3], ["stop"], ["adv", 9]]},
         # known finding: stop() + start(now=False) from inside f
         {"k": 0, "count": False, "beh": ["ret", "restartret"], "ops": [["start", 2, True], ["adv", 2], ["adv", 2], ["stop"],
                                                                     ["adv", 2]]},
@@ -462,6 +505,10 @@ def corpus():
 
 
 def to_coq(case):
+    if any(case.get("on_done") or []):
+        # a callback on start()'s Deferred restarts the loop: checked by the oracle only (on HEAD it is equivalent to
+        # a start() issued right after the operation that fired the Deferred, which the model covers)
+        return None
     if _RESTART_WHILE_PENDING.get(stable_hash(case), False) and not case.get("model_anyway"):
         # outside the fragment whose observations the model predicts exactly (errors raised inside Deferred
         # callbacks are swallowed by the Deferred); the oracle still sees these cases
@@ -515,7 +562,7 @@ SPEC = Spec(
          "schedules: intervals 1..7*2^20 at scales 2^0..2^-10, sub-interval steps, interval+-1, 1-3 interval jumps, "
          "5-1000 interval jumps, latencies (Deferreds fired later, possibly with failure), stop/reset from outside and "
          "from inside f, restarts; a stream that restarts while a Deferred is unfired and behaviour tables that stop+start from "
-         "inside f (known-finding classes); withCount loops stopped and restarted at / just after / long after the last tick; "
+         "inside f (known-finding classes); withCount loops stopped and restarted at / just after / long after the last tick; callbacks / errbacks on start()'s Deferred that restart the loop synchronously (now=True/False), followed by stop()/reset()/advances before the restarted loop's first tick (oracle only); "
          "non-trivial = f called at least twice; distinct by (case, observation)",
     trusted=["hand-written model coq/C10/Model.v (tied by this correspondence run only)",
              "the loop is the only user of its clock (task.Clock, or a ReactorBase subclass with a controlled seconds() "
